@@ -126,6 +126,16 @@ Definition nv_chain : list lop :=
   repeat (LBlock []) 5 ++ [LBlock [Some [nv_log]]; LBlock []; LBlock [None]; LRestart]
   ++ repeat (LBlock []) (N.to_nat 4088).
 
+Definition nv_obs (o : option bstate) :=
+  match o with
+  | Some s => Some (get_bloom_data (kv s) 5, read_bloom_bits (kv s) 258 0, read_bloom_bits (kv s) 258 1)
+  | None => None
+  end.
+Definition nv_vec : bytes := 4 :: repeat 0 (N.to_nat 511).
+
+Lemma nv_eval : nv_obs (lrun nv_K6 0 nv_chain) = Some (Some (logs_bloom nv_K6 [nv_log]), Some (compress_bytes nv_vec), None).
+Proof. vm_compute. reflexivity. Qed.
+
 Example c43_nonvacuous :
   exists st,
     lrun nv_K6 0 nv_chain = Some st /\ N.of_nat (length (blocks_of nv_chain)) = BloomBitsBlocks /\
@@ -136,21 +146,13 @@ Example c43_nonvacuous :
                    vec_bit vec 5 = true /\ vec_bit vec 4 = false /\ vec_bit vec 6 = false) /\
     read_bloom_bits (kv st) 258 1 = None.
 Proof.
-  destruct (lrun nv_K6 0 nv_chain) as [st|] eqn:E; [|vm_compute in E; discriminate].
+  assert (H := nv_eval). destruct (lrun nv_K6 0 nv_chain) as [st|]; [|discriminate].
+  cbn [nv_obs] in H. injection H as Hb Hv Hn.
   exists st. split; [reflexivity|].
-  assert (Hb : get_bloom_data (kv st) 5 = Some (logs_bloom nv_K6 [nv_log])).
-  { apply (f_equal (fun o => match o with Some s => get_bloom_data (kv s) 5 | None => None end)) in E.
-    rewrite <- E. vm_compute. reflexivity. }
-  assert (Hv : read_bloom_bits (kv st) 258 0 = Some (compress_bytes (0 :: 4 :: repeat 0 (N.to_nat 510)))).
-  { apply (f_equal (fun o => match o with Some s => read_bloom_bits (kv s) 258 0 | None => None end)) in E.
-    rewrite <- E. vm_compute. reflexivity. }
-  assert (Hn : read_bloom_bits (kv st) 258 1 = None).
-  { apply (f_equal (fun o => match o with Some s => read_bloom_bits (kv s) 258 1 | None => None end)) in E.
-    rewrite <- E. vm_compute. reflexivity. }
   split; [vm_compute; reflexivity|]. split; [|split; [|split]].
   - exists (logs_bloom nv_K6 [nv_log]). split; [exact Hb|]. split; [vm_compute; discriminate|vm_compute; reflexivity].
   - vm_compute. auto.
-  - exists (compress_bytes (0 :: 4 :: repeat 0 (N.to_nat 510))), (0 :: 4 :: repeat 0 (N.to_nat 510)).
+  - exists (compress_bytes nv_vec), nv_vec.
     split; [exact Hv|]. split; [vm_compute; reflexivity|]. vm_compute. auto.
   - exact Hn.
 Qed.
